@@ -165,9 +165,9 @@ func (s *Sorts) zero(t types.Type) string {
 		}
 		return "0"
 	case *types.Slice:
-		return "nilslice"
+		return "(mkslice 0 0 0 0)"
 	case *types.Interface:
-		return "niliface"
+		return "(mkiface 0 0)"
 	case *types.Array:
 		return fmt.Sprintf("((as const %s) %s)", s.sortOf(t), s.zero(u.Elem()))
 	case *types.Struct:
